@@ -6,7 +6,7 @@ import ast
 
 class Contract:
     def __init__(self, key, requires=(), ensures=(), yields=(), raises=None, raises_iff=(), loops=None,
-                 props=(), inherits=None, unfold=(), lemmas=(), note="", trusted=False, decreases=None, abstract=False, defines=(), heavy=False, hide=(), depth=0):
+                 props=(), inherits=None, unfold=(), lemmas=(), note="", trusted=False, decreases=None, abstract=False, defines=(), heavy=False, hide=(), depth=0, mutates=None, raises_ensures=()):
         self.key = key  # "module:Class.method"
         self.requires = list(requires)
         self.ensures = list(ensures)
@@ -19,6 +19,8 @@ class Contract:
         self.unfold = list(unfold)
         self.hide = list(hide)  # non-recursive spec functions kept uninterpreted for this contract (opaque / reveal)
         self.lemmas = list(lemmas)
+        self.mutates = dict(mutates or {})  # parameter -> class: object updated in place; ensures speak of `p` (exit) and `p0` (entry)
+        self.raises_ensures = list(raises_ensures)  # clauses at exceptional exits, the exception bound to `exc`
         self.depth = depth  # levels of definitional unfolding per saturation round (0: engine default)
         self.note = note
         self.trusted = trusted  # assumed, not verified (listed in trusted_base)
